@@ -108,6 +108,58 @@ func secARAP(r *vlib.Run) {
 			}
 			a = model3d.NewARAPWeighted(in.mesh, l, rw)
 		}
+		// configuration accessors: documented defaults, setters and getters agree
+		if a.Tolerance() != model3d.ARAPDefaultTolerance || a.MaxIterations() != model3d.ARAPMaxIterations || a.MinIterations() != model3d.ARAPMinIterations {
+			c.Violationf("model3d.ARAP/default-configuration", nil, "new ARAP has tolerance %g, max %d, min %d iterations; documented defaults %g, %d, %d",
+				a.Tolerance(), a.MaxIterations(), a.MinIterations(), model3d.ARAPDefaultTolerance, model3d.ARAPMaxIterations, model3d.ARAPMinIterations)
+			return
+		}
+		{
+			t, mx, mnI := math.Pow(10, -1-8*rng.Float64()), 1+rng.Intn(9000), rng.Intn(5)
+			a.SetTolerance(t)
+			a.SetMaxIterations(mx)
+			a.SetMinIterations(mnI)
+			if a.Tolerance() != t || a.MaxIterations() != mx || a.MinIterations() != mnI {
+				c.Violationf("model3d.ARAP/setters-and-getters", nil, "set tolerance %g, max %d, min %d; read back %g, %d, %d", t, mx, mnI, a.Tolerance(), a.MaxIterations(), a.MinIterations())
+				return
+			}
+			a.SetTolerance(model3d.ARAPDefaultTolerance)
+			a.SetMaxIterations(model3d.ARAPMaxIterations)
+			a.SetMinIterations(model3d.ARAPMinIterations)
+			c.Count("arap.configuration_roundtrips", 1)
+		}
+		// AddAround: exactly the vertices within r of the centre, each moved by target-centre
+		{
+			ctr := in.im.pts[rng.Intn(len(in.im.pts))]
+			if rng.Intn(3) == 0 {
+				ctr = ctr.Add(model3d.XYZ(rng.NormFloat64(), rng.NormFloat64(), rng.NormFloat64()).Scale(0.2 * in.size))
+			}
+			rad := in.size * rng.Float64()
+			target := ctr.Add(model3d.XYZ(rng.NormFloat64(), rng.NormFloat64(), rng.NormFloat64()).Scale(0.3 * in.size))
+			got := model3d.ARAPConstraints{}
+			got.AddAround(a, ctr, rad, target)
+			want := map[C3]C3{}
+			for _, p := range in.im.pts {
+				if ctr.Dist(p) <= rad {
+					want[p] = p.Add(target.Sub(ctr))
+				}
+			}
+			same := len(got) == len(want)
+			for p, q := range want {
+				if g, ok := got[p]; !ok || g != q {
+					same = false
+				}
+			}
+			c.Count("arap.AddAround.calls", 1)
+			if len(want) > 0 {
+				c.Count("arap.AddAround.nonempty", 1)
+			}
+			if !same {
+				c.Violationf("model3d.ARAPConstraints.AddAround/vertices-within-radius", map[string]interface{}{"center": hex3(ctr), "radius": rad, "target": hex3(target)},
+					"AddAround produced %d constraints, the mesh has %d vertices within the radius (each to be moved by target-centre)", len(got), len(want))
+				return
+			}
+		}
 		mode := rng.Intn(4) // 0 translation, 1 rotation, 2 free handles, 3 all constrained / seq
 		idx, comp := pickConstraints(rng, in)
 		if mode == 3 && rng.Intn(2) == 0 {
@@ -203,7 +255,12 @@ func secARAP(r *vlib.Run) {
 				}
 				mapped[i] = q
 			}
-			if okMap && finitePts(mapped) {
+			if okMap && finitePts(mapped) && in.topo.Components > 1 {
+				// a component without any constrained vertex is free to move rigidly: its position is
+				// fixed only by rounding (the order in which a Go map hands over the constraints), so two
+				// runs need not agree on it
+				c.Undecided("arap-mapping:mesh has a component that may carry no constraint")
+			} else if okMap && finitePts(mapped) {
 				res := matchFaces(mapped, in.im.faces, ot, 1e-7*(in.maxA+in.size+shift.Norm()))
 				switch {
 				case res.undecided:
